@@ -61,6 +61,8 @@ def extra(chk):
     chk.validate("Trace_Seq.tla", "Trace_Seq.cfg", trs, "seq", own=own, nontrivial=lambda t: len(t["ev"]) > 20)
     trs = [t for t in S.pmap(SS.run_soo, stro_cfgs(tier, 1340000)) if "skipped" not in t]
     chk.validate("Trace_Stro.tla", "Trace_Stro.cfg", trs, "stro", own=own, chunk=20, nontrivial=lambda t: any(e["k"] == "pull" and any(x[2] == 0 and x[1] > 0 for x in e.get("fc", [])) for e in t["ev"]))
+    from . import strocommon as ST
+    ST.sources(chk, tier, own)
     from . import c11, c13
     trs = S.pmap(Z.run_zoom, c11.cfgs(tier)[: (12 if tier == "quick" else 100)])
     chk.validate("Trace_Zoom.tla", "Trace_Zoom.cfg", trs, "zoom", own=["zoom.stats", "zoom.foreign-stats"], nontrivial=lambda t: t["arms"] >= 3)
